@@ -156,6 +156,58 @@ theorem sameBooks_full (p : TermsP) (sub : Req) (q : List Doc) :
   rw [cnt_mapVals]
   rfl
 
+/-! ### the request tree decomposes: several top-level nodes, filter parents -/
+
+theorem foldl_both (a b : Req) (F : List Doc → Inter M a) (G : List Doc → Inter M b) :
+    ∀ (parts : List (List Doc)) (x : Inter M a) (y : Inter M b),
+      (parts.map (fun q => ((F q, G q) : Inter M (.both a b)))).foldl (merge (.both a b)) (x, y)
+        = ((parts.map F).foldl (merge a) x, (parts.map G).foldl (merge b) y)
+  | [], _, _ => rfl
+  | q :: qs, x, y => by
+    simp only [List.map_cons, List.foldl_cons]
+    exact foldl_both a b F G qs _ _
+
+theorem collectSeg_both (a b : Req) (q : List Doc) :
+    collectSeg (M := M) (.both a b) q = (collectSeg a q, collectSeg b q) := by
+  show harvest (.both a b) (collect (.both a b) q) = _
+  rw [collect_both]
+  rfl
+
+theorem fold_both (a b : Req) (parts : List (List Doc)) :
+    (parts.map (collectSeg (M := M) (.both a b))).foldl (merge (.both a b)) (empty (.both a b))
+      = ((parts.map (collectSeg a)).foldl (merge a) (empty a), (parts.map (collectSeg b)).foldl (merge b) (empty b)) := by
+  have e : parts.map (collectSeg (M := M) (.both a b))
+      = parts.map (fun q => ((collectSeg a q, collectSeg b q) : Inter M (.both a b))) :=
+    List.map_congr_left (fun q _ => collectSeg_both a b q)
+  rw [e]
+  exact foldl_both a b (collectSeg a) (collectSeg b) parts (empty a) (empty b)
+
+theorem foldl_filter (f : Field) (v : Int) (sub : Req) (C : List Doc → Nat) (G : List Doc → Inter M sub) :
+    ∀ (parts : List (List Doc)) (c : Nat) (y : Inter M sub),
+      (parts.map (fun q => ((C q, G q) : Inter M (.filter f v sub)))).foldl (merge (.filter f v sub)) (c, y)
+        = ((parts.map C).foldl (· + ·) c, (parts.map G).foldl (merge sub) y)
+  | [], _, _ => rfl
+  | q :: qs, c, y => by
+    simp only [List.map_cons, List.foldl_cons]
+    exact foldl_filter f v sub C G qs _ _
+
+theorem collectSeg_filter (f : Field) (v : Int) (sub : Req) (q : List Doc) :
+    collectSeg (M := M) (.filter f v sub) q
+      = ((q.filter (filterMatch f v)).length, collectSeg sub (q.filter (filterMatch f v))) := by
+  show harvest (.filter f v sub) (collect (.filter f v sub) q) = _
+  rw [collect_filter]
+  rfl
+
+theorem fold_filter (f : Field) (v : Int) (sub : Req) (parts : List (List Doc)) :
+    (parts.map (collectSeg (M := M) (.filter f v sub))).foldl (merge (.filter f v sub)) (empty (.filter f v sub))
+      = ((parts.map (fun q => (q.filter (filterMatch f v)).length)).foldl (· + ·) 0,
+         ((parts.map (fun q => q.filter (filterMatch f v))).map (collectSeg sub)).foldl (merge sub) (empty sub)) := by
+  have e : parts.map (collectSeg (M := M) (.filter f v sub))
+      = parts.map (fun q => (((q.filter (filterMatch f v)).length, collectSeg sub (q.filter (filterMatch f v))) : Inter M (.filter f v sub))) :=
+    List.map_congr_left (fun q _ => collectSeg_filter f v sub q)
+  rw [e, List.map_map]
+  exact foldl_filter f v sub _ _ parts 0 (empty sub)
+
 end termsGen
 
 end TantivyModel.Agg
